@@ -54,9 +54,9 @@ def gen_inputs(ctx):
     # echoed and parse back unchanged
     lits = core.source_literals()
     ctx.notes["source_literal_passphrases"] = len(lits)
-    for j, lit in enumerate(lits if not q else lits[:8] + rng.sample(lits[8:], min(len(lits[8:]), 4))):
+    for j, lit in enumerate(lits if not q else lits[:10] + rng.sample(lits[10:], min(len(lits[10:]), 2))):
         out.append(("Generate", {"mnemonic": T(MNEMONICS[j % 3] if j % 4 else lit), "password": T(lit), "net": "main", "account": 0,
-                                 "start": B((0).to_bytes(5, "big")), "end": B((2).to_bytes(5, "big")), "json": [4, 2, 1, True][j % 4]},
+                                 "start": B((0).to_bytes(5, "big")), "end": B((2).to_bytes(5, "big")), "json": [4, 2, 1][j % 3]},
                     ("generate-source-literal-passphrase",)))
     # wallets IMPORTED from a master extended private key of each of the six private flavours (x/y/z/t/u/v prv): the
     # three sections still carry THEIR purpose's flavour, whatever flavour the wallet came in
